@@ -106,21 +106,23 @@ def match_schemas(w_schema, r_schema, named_schemas):
     elif isinstance(r_schema, list):
         # If the reader is a union, the first schema of the same type as the
         # writer wins; only then schemas reachable by promotion are considered
-        for schema in r_schema:
-            if _same_name(w_schema, schema) and match_types(
-                w_schema, schema, named_schemas
-            ):
-                return schema
-        for schema in r_schema:
-            if _same_type(w_schema, schema) and match_types(
-                w_schema, schema, named_schemas
-            ):
-                return schema
-        for schema in r_schema:
-            if match_types(w_schema, schema, named_schemas):
-                return schema
-        else:
-            raise SchemaResolutionError(error_msg)
+        for candidates in (
+            [s for s in r_schema if _same_name(w_schema, s)],
+            [s for s in r_schema if _same_type(w_schema, s)],
+            r_schema,
+        ):
+            for schema in candidates:
+                if match_types(w_schema, schema, named_schemas):
+                    if (
+                        isinstance(w_schema, dict)
+                        and isinstance(schema, str)
+                        and schema in named_schemas["reader"]
+                    ):
+                        # The writer defines the type inline, the reader union
+                        # refers to it by name: hand back the definition
+                        return named_schemas["reader"][schema]
+                    return schema
+        raise SchemaResolutionError(error_msg)
     else:
         # Check for dicts as primitive types are just strings
         if isinstance(w_schema, dict):
